@@ -30,6 +30,12 @@ def digest(x):
     return hashlib.sha1(json.dumps(_content(x), sort_keys=True, default=str).encode()).hexdigest()[:16]
 
 
+def _encname(e):
+    """a stable name of an encoding (the default repr of an object holds its address)"""
+    r = str(e)
+    return type(e).__name__ if " at 0x" in r else r
+
+
 def _content(x, depth=0):
     from bionumpy.encoded_array import EncodedArray, EncodedRaggedArray
     from bionumpy.string_array import StringArray
@@ -48,9 +54,9 @@ def _content(x, depth=0):
     if isinstance(x, LazyBNPDataClass):
         return ["lazy", bytes(np.asarray(x.get_buffer().raw() if hasattr(x.get_buffer(), "raw") else x.get_buffer()).astype(np.uint8)).decode("latin-1")]
     if isinstance(x, EncodedRaggedArray):
-        return ["era", str(x.encoding), np.asarray(x.ravel().raw()).tolist(), np.asarray(x.lengths).tolist()]
+        return ["era", _encname(x.encoding), np.asarray(x.ravel().raw()).tolist(), np.asarray(x.lengths).tolist()]
     if isinstance(x, EncodedArray):
-        return ["ea", str(x.encoding), np.asarray(x.raw()).tolist()]
+        return ["ea", _encname(x.encoding), np.asarray(x.raw()).tolist()]
     if isinstance(x, StringArray):
         return ["sa", x.tolist()]
     if isinstance(x, RaggedArray):
@@ -71,7 +77,9 @@ def _content(x, depth=0):
         return ["rl", _content(np.asarray(x.to_array()), depth + 1)]
     if hasattr(x, "counts") and hasattr(x, "alphabet"):
         return ["counts", np.asarray(x.counts).tolist()]
-    return ["repr", repr(x)[:200]]
+    r = repr(x)[:200]
+    import re as _re
+    return ["repr", _re.sub(r" at 0x[0-9a-f]+", "", r)]
 
 
 def _registry():
@@ -185,6 +193,61 @@ def _registry():
                                     lambda r: (g.get_track(BedGraph(["chr1"], np.array([0]), np.array([45]), np.array([2]))), ivs(r)), False),
         "get_windows": (lambda t: g.get_locations(t).get_windows(flank=2).get_data(), lambda r: (LocationEntry(["chr1", "chr2"], np.array([1, 28])),), False),
     }
+    # ---- more of the public surface, with arguments that are ALREADY in the encoding the callee works in (as_encoded_array then hands the
+    # caller's own object on, so an in-place step inside the callee would write into the caller's data), as ragged and as 2-D arrays
+    from bionumpy.variants.mutation_signature import encode_snps, MutationTypeEncoding
+    from bionumpy.variants.consensus import apply_variants, apply_variants_to_sequence
+    from bionumpy.sequence.string_matcher import RegexMatcher
+    from bionumpy.sequence.indexing.kmer_indexing import KmerIndex
+    from bionumpy.sequence.count_encoded import count_encoded
+    from bionumpy.datatypes import Variant
+    from bionumpy.io.matrix_dump import matrix_to_csv, parse_matrix
+    from bionumpy.io.dump_csv import dump_csv
+    from bionumpy.string_array import as_string_array, string_array
+    from bionumpy.arithmetics import forbes
+    from bionumpy.arithmetics.intervals import global_intersect
+
+    def kmers3(rng, two_d):
+        rows = ["".join(rng.choice("ACGT") for _ in range(3)) for _ in range(rng.randint(2, 5))] + ["AAG", "TGC", "CCA", "GTT"]
+        a = bnp.as_encoded_array(rows, bnp.DNAEncoding)
+        return a.ravel().reshape(len(rows), 3) if two_d else a
+
+    def alts(k):
+        # an alternative base that differs from the middle base of every k-mer
+        mid = k[:, 1] if not hasattr(k, "lengths") else k.ravel().reshape(len(k), 3)[:, 1]
+        return bnp.as_encoded_array("".join("ACGT"[("ACGT".index(c) + 1) % 4] for c in mid.to_string()), bnp.DNAEncoding)
+    variants = lambda: Variant(["c1", "c1", "c2"], np.array([1, 4, 0]), ["C", "A", "G"], ["T", "G", "A"])
+    R.update({
+        "encode_snps[DNA-encoded 2-D k-mers]": (encode_snps, lambda r: (lambda k: (k, alts(k)))(kmers3(r, True)), True),
+        "encode_snps[DNA-encoded ragged k-mers]": (encode_snps, lambda r: (lambda k: (k, alts(k)))(kmers3(r, False)), True),
+        "MutationTypeEncoding.from_flanked_snp": (lambda k, a: MutationTypeEncoding(1).from_flanked_snp(k, a), lambda r: (lambda k: (k, alts(k)))(kmers3(r, True)), True),
+        "apply_variants_to_sequence": (apply_variants_to_sequence, lambda r: (bnp.as_encoded_array("ACGTAC", bnp.DNAEncoding), variants()[:2]), True),
+        "apply_variants": (apply_variants, lambda r: (SequenceEntry(["c1", "c2"], ["ACGTAC", "GGTT"]), variants()), True),
+        "RegexMatcher.rolling_window": (lambda sq: RegexMatcher("A.{0,1}[CG]", encoding=bnp.DNAEncoding).rolling_window(sq, mode="same"), lambda r: (seqs(r),), True),
+        "PWM.calculate_scores": (lambda sq: pwm.calculate_scores(sq), lambda r: (bnp.as_encoded_array("ACGTTGCA" + "".join(r.choice("ACGT") for _ in range(4)), bnp.DNAEncoding),), True),
+        "KmerIndex.create_index": (lambda sq: sorted((int(k), [int(x) for x in v]) for k, v in KmerIndex.create_index(sq, 2)._lookup.items()),
+                                   lambda r: (bnp.as_encoded_array(["ACGT", "CGA", "TTAC"], bnp.DNAEncoding),), True),
+        "count_encoded": (lambda sq: count_encoded(sq).counts, lambda r: (seqs(r).ravel(),), True),
+        "count_encoded(axis=-1)": (lambda sq: count_encoded(sq, axis=-1).counts, lambda r: (seqs(r),), True),
+        "get_kmers[2-D]": (get_kmers, lambda r: (kmers3(r, True), 2), True),
+        "get_reverse_complement[2-D]": (get_reverse_complement, lambda r: (kmers3(r, True),), True),
+        "matrix_to_csv": (matrix_to_csv, lambda r: (np.array([[1, -20], [300, r.randint(0, 9)]]), ["a", "bb"]), True),
+        "parse_matrix": (lambda t: (lambda m: (m.data, m.col_names.tolist()))(parse_matrix(t, field_type=int, rowname_type=None)), lambda r: ("a,bb\n1,-20\n300,%d\n" % r.randint(0, 9),), True),
+        "dump_csv": (dump_csv, lambda r: ([(int, np.array([5, -60, r.randint(0, 99)])), (str, bnp.as_encoded_array(["x", "yy", ""]))],), True),
+        "string_array": (string_array, lambda r: (seqs(r),), True),
+        "as_string_array": (as_string_array, lambda r: (["chr1", "c", "chr%d" % r.randint(2, 30)],), True),
+        "StringArray == text": (lambda a: (a == "chr1"), lambda r: (as_string_array(["chr1", "c", "chr1"]),), True),
+        "forbes": (forbes, lambda r: ({"chr1": 50}, ivs(r, 3, True), ivs(r, 2, True)), True),
+        "global_intersect": (global_intersect, lambda r: (ivs(r, 3, True), ivs(r, 2, True)), True),
+        "np.sort(encoded)": (lambda a: np.sort(a.raw()), lambda r: (seqs(r).ravel(),), True),
+        "np.argsort(encoded)": (np.argsort, lambda r: (seqs(r).ravel(),), True),
+        "np.bincount(encoded)": (np.bincount, lambda r: (seqs(r).ravel(),), True),
+        "GenomicIntervals.clip": (lambda t: g.get_intervals(t).clip().get_data(), lambda r: (ivs(r),), True),
+        "GenomicIntervals.get_location": (lambda t: g.get_intervals(t, stranded=True).get_location("start").get_data(), lambda r: (bed6(r),), True),
+        "GenomicIntervals.sorted": (lambda t: g.get_intervals(t).sorted().get_data(), lambda r: (ivs(r)[::-1],), True),
+        "Genome.get_track.get_data": (lambda t: g.get_track(t).get_data(), lambda r: (BedGraph(["chr1", "chr2"], np.array([0, 3]), np.array([5, 9]), np.array([1.5, -2.0])),), True),
+        "Genome.get_track[gap-free].sum": (lambda t: g.get_track(t).sum(), lambda r: (BedGraph(["chr1", "chr1", "chr2"], np.array([0, 20, 0]), np.array([20, 50, 30]), np.array([1.5, r.random(), -2.0])),), True),
+    })
     return R
 
 
